@@ -148,6 +148,7 @@ theorem step_inert (cfg : Config) (s : PState ν) (e : Event ν) (h : e.inert = 
     | none => rfl
     | some st => cases st <;> rfl
   | empty t => rfl
+  | lengthAttr t => rfl
 
 /-! ### cvParam runs, one context at a time -/
 
@@ -598,6 +599,7 @@ theorem run_dead (cfg : Config) (evs : List (Event ν)) (s : PState ν) (hs : s.
         | spectrum => simp [Event.noSpec] at h1
         | _ => exact ⟨s, by simp [step, onEnd, hs], hs, rfl⟩
       | empty t => exact ⟨s, rfl, hs, rfl⟩
+      | lengthAttr t => exact ⟨s, rfl, hs, rfl⟩
     obtain ⟨s1, e1, hs1, hsp1⟩ := hstep
     obtain ⟨s2, e2, hs2, hsp2⟩ := ih s1 hs1 h2
     exact ⟨s2, by simp [run, e1, e2], hs2, hsp2.trans hsp1⟩
@@ -932,6 +934,7 @@ def Event.mayRaise : Event ν → List Err
   | .text _ => [.base64, .io]                          -- not base64; not a zlib stream
   | .stop _ => []
   | .empty _ => []
+  | .lengthAttr _ => []
 
 theorem step_errors (cfg : Config) (s : PState ν) (ev : Event ν) (e : Err) (h : step cfg s ev = .error e) :
     e ∈ ev.mayRaise := by
@@ -1014,6 +1017,7 @@ theorem step_errors (cfg : Config) (s : PState ν) (ev : Event ν) (e : Err) (h 
       · simp [onText, h1] at hr
   | stop t => simp [step] at h
   | empty t => simp [step] at h
+  | lengthAttr t => simp [step] at h
 
 theorem run_error_source (cfg : Config) (s : PState ν) (evs : List (Event ν)) (e : Err)
     (h : run cfg s evs = .error e) : ∃ ev ∈ evs, e ∈ ev.mayRaise := by
@@ -1282,6 +1286,45 @@ theorem run_strip (cfg : Config) (s : PState ν) (evs : List (Event ν)) :
 example : strip (ν := Int) [.start (.other 0) none none, .start .scan none none, .empty (.other 3),
     .cv .scanStart (.nat 90) .seconds, .stop .scan, .stop (.other 0)] =
     [.start .scan none none, .cv .scanStart (.nat 90) .seconds, .stop .scan] := by decide
+
+/-- an event that only carries array-length attribute text -/
+def Event.isLengthAttr : Event ν → Bool
+  | .lengthAttr _ => true
+  | _ => false
+
+/-- **C16.length_attrs_ignored** — the `defaultArrayLength`, `arrayLength` and `encodedLength`
+attributes play no part: whatever text they carry (correct, 0, off by some, 18446744073709551615,
+negative, not a number) and wherever they occur, the outcome is the one for the document without
+them. In particular no buffer is sized from them, so a hostile value cannot make the reader fail. -/
+theorem length_attrs_ignored (cfg : Config) (s : PState ν) (evs : List (Event ν)) :
+    run cfg s evs = run cfg s (evs.filter (fun e => !e.isLengthAttr)) := by
+  induction evs generalizing s with
+  | nil => rfl
+  | cons e es ih =>
+    by_cases hi : e.isLengthAttr = true
+    · have hf : (e :: es).filter (fun e => !e.isLengthAttr) = es.filter (fun e => !e.isLengthAttr) := by simp [hi]
+      have hstep : step cfg s e = .ok (s, none) := by
+        cases e <;> simp [Event.isLengthAttr] at hi
+        rfl
+      rw [hf, ← ih s]
+      simp only [run, hstep, Option.toList, List.nil_append]
+      cases run cfg s es with
+      | error x => rfl
+      | ok r => rfl
+    · have hf : (e :: es).filter (fun e => !e.isLengthAttr) = e :: es.filter (fun e => !e.isLengthAttr) := by
+        simp [hi]
+      rw [hf]
+      simp only [run]
+      cases step cfg s e with
+      | error x => rfl
+      | ok r => obtain ⟨s1, o1⟩ := r; simp only [ih s1]
+
+/-- non-vacuity: a hostile `defaultArrayLength` in front of a spectrum with a one-value m/z array -/
+example : (parse (ν := Int) {} [.lengthAttr "18446744073709551615", .start .spectrum (some "a") none,
+      .lengthAttr "-1", .start .binaryDataArray none none, .cv .mzArray .absent .absent, .cv .f32 .absent .absent,
+      .cv .noCompression .absent .absent, .start .binary none none, .text (.data [7, 0, 0, 0] none), .stop .binary,
+      .stop .binaryDataArray, .stop .spectrum]).toOption =
+    some [⟨"a", 0, false, 0, 0, 0, [], [7], []⟩] := by decide
 
 /-- **C16.parse_total** — the model's `parse` is a total function: for EVERY event list (any events,
 any order, any nesting) it returns either a list of spectra or one of six error values
